@@ -141,6 +141,12 @@ def designs(draw, max_mods=4, max_prims=3, max_insts=4, max_w=4):
             if not free:
                 break
             iname = draw(st.sampled_from(free))
+            if draw(st.integers(0, 5)) == 0:
+                # cells and nets are separate name spaces in the netlist (synthesis output numbers
+                # them separately): a cell may be called like a net of its module
+                same = [n[0] for n in nets if n[0] not in iused]
+                if same:
+                    iname = draw(st.sampled_from(same))
             iused.add(iname)
             kind, idx = draw(st.sampled_from(targets))
             tports = mods[idx]["ports"] if kind == "m" else prims[idx]["ports"]
